@@ -77,6 +77,20 @@ Definition forced_check (o : callobs) : list nat :=
   (if co_inputs_ok o then [] else [1504]) ++
   match co_act_ends o with [_] => [] | _ => [1507] end.
 
+(* a calling act with a catch for the error its child ends in: the return writes the act `error` (not before the child's
+   ending), the catch takes the error and puts the act back to running, and -- the catch having no steps -- the act is
+   completed by its review: error, then completed, each once, and the act is not left open *)
+Definition caught_check (o : callobs) : list nat :=
+  (if co_inputs_ok o then [] else [1504]) ++
+  match co_child_end o with
+  | Some (SError, t) =>
+      match co_act_ends o with
+      | [(SError, t1); (SCompleted, t2)] => if Z.leb t t1 && Z.leb t1 t2 && negb (co_act_open o) then [] else [1508]
+      | _ => [1508]
+      end
+  | _ => [1508]
+  end.
+
 (* ---------- C17: what is left of a process ---------- *)
 Record retobs := {
   ro_keep : bool;                 (* keep_processes *)
